@@ -156,6 +156,18 @@ var specs = map[string]spec{
 		},
 		Assumptions: commonAssumptions, Plain: true, QuickStride: 1, ThoroughStride: 1, QuickDeadline: 420, ThoroughDeadline: 3000, OrderSensitive: true,
 	},
+	"C20": {
+		LevelText: "exhaustive enumeration (replacing random generation) of a catalogue of Go leaf values for every reflect kind the converter accepts - boundaries of every integer kind, float32/64 incl. -0/NaN/Inf, strings, time values, nil pointer/slice/map/interface, value- and pointer-receiver marshalers, pre-converted values, structs with unexported/embedded fields - closed under two levels of slice/map/pointer/interface/struct wrapping, under both struct-option settings, compared with an independent reflective reference conversion; then all ordered pairs of the resulting distinct Soy values for symmetry and numeric equality, the truthiness table, and printing under every map iteration order",
+		LevelNote: "trusted base: refConvert/refSame/refTruthy in the harness; unsigned values above MaxInt64 have no Int representation: the check only demands that no negative number appears",
+		Technique: "bounded exhaustive enumeration of inputs and of all ordered pairs against a reference conversion and algebraic laws; map-order choice exploration for printing",
+		Level:     "model_checking",
+		Rule:      "states = distinct (Go value, options) conversions + distinct Soy values checked for the laws; transitions = conversions + per-value law rows (counter pairs counts the Equals pairs); non-trivial = conversion returned a value",
+		Bounds: map[string]string{
+			"quick":    "58 leaves x 8 wrappers, every third level-1 value wrapped again x 5, 18 typed containers; 2 option settings; all ordered pairs of the distinct resulting values",
+			"thorough": "same",
+		},
+		Assumptions: commonAssumptions, Plain: true, QuickStride: 1, ThoroughStride: 1, QuickDeadline: 420, ThoroughDeadline: 3000,
+	},
 	"C05": {
 		LevelText: "bounded exhaustive exploration of the real parser: every input of the stated small scopes is parsed under a controlled scheduler with a deterministic linear fuel bound (no wall clock), and small inputs under every parser/scanner interleaving up to 2 preemptions; termination, no panic, no deadlock and tree-xor-error are checked on every execution and every case is replayed on the uninstrumented build",
 		LevelNote: "assumes the bounded scopes are representative (small-scope hypothesis) and that the overlay instrumentation preserves behaviour (cross-checked case by case against the plain build)",
